@@ -101,6 +101,15 @@ Example C05_refuted_pinned_fallback :
   /\ fst (fst (eval (pinned false) (KLoop true false [KLeaf LNormal]) (mkM [0] 0 0))) = GNormal.
 Proof. vm_compute. split; reflexivity. Qed.
 
+(* an error swallowed by catch() inside another counted loop: the inner register was never
+   released, the outer release finds it on top (this is why the release is deferred) *)
+Example C05_refuted_pinned_catch :
+  fst (fst (eval (pinned true) (KLoop true true [KCatch (KLoop true true [KLeaf LError])]) (mkM [0] 0 0)))
+    = GPanic PNonLifo
+  /\ fst (fst (eval (repaired true) (KLoop true true [KCatch (KLoop true true [KLeaf LError])]) (mkM [0] 0 0)))
+    = GNormal.
+Proof. vm_compute. split; reflexivity. Qed.
+
 Example C05_refuted_pinned_full_statement :
   ~ reg_unobservable (list skel) (list okind) (fun _ => false)
       (fun regs inputs => map fst (fst (run_session (pinned regs) inputs new_session))).
